@@ -6,7 +6,7 @@
    [i]; [n] is the static array length, assumed <= 2^63 (the usize reading of a negative int64
    is >= 2^63).  The property as a whole is PARTIAL: see props/C19/NOTES.md. *)
 From Coq Require Import String ZArith List Bool Lia.
-From V.C19 Require Import Array Proofs.
+From V.C19 Require Import Array GenIter ModelIter Proofs ProofsIter.
 Import ListNotations.
 Open Scope Z_scope.
 
@@ -159,3 +159,71 @@ Theorem copy_sees_elements_in_order : forall n vs, length vs = n ->
   run_outs (seq_copy n) outs_copy [VArr (map Some vs)] = Ok [VArr (map Some vs); VArr (map Some vs)].
 Proof. exact copy_full_l. Qed.
 Print Assumptions copy_sees_elements_in_order.
+
+Theorem copy_of_array_with_lent_cell_panics : forall n cells k,
+  length cells = n -> nth_error cells k = Some None ->
+  run_outs (seq_copy n) outs_copy [VArr cells] = Panic msg_some_borrowed.
+Proof. exact copy_lent_l. Qed.
+Print Assumptions copy_of_array_with_lent_cell_panics.
+
+(** unpacking `a1, .., al, *mid, b1, .., br = xs` (and without the star, where mid = []):
+    for EVERY decomposition xs = left ++ mid ++ right the left patterns get [left], the right
+    patterns get [right], both in index order, and the starred name gets the array [mid]
+    (proof by induction on the number of pops; all array lengths) *)
+Theorem unpack_sees_elements_in_order : forall left mid right star,
+  (star = false -> mid = []) ->
+  run_outs (seq_unpack (length (left ++ mid ++ right)) (length left) (length right) star)
+    (outs_unpack_left (length left)
+     ++ (if star then [out_unpack_star (length left) (length right)] else [])
+     ++ outs_unpack_right (length left) (length right))
+    [VArr (map Some (left ++ mid ++ right))]
+  = Ok (left ++ (if star then [VArr (map Some mid)] else []) ++ right).
+Proof. exact unpack_in_order_l. Qed.
+Print Assumptions unpack_sees_elements_in_order.
+
+Example unpack_example :
+  run_outs (seq_unpack 5 2 1 true) (outs_unpack_left 2 ++ [out_unpack_star 2 1] ++ outs_unpack_right 2 1)
+    [VArr (map Some [VInt 0; VInt 1; VInt 2; VInt 3; VInt 4])]
+  = Ok [VInt 0; VInt 1; VArr [Some (VInt 2); Some (VInt 3)]; VInt 4]
+  /\ run_outs (seq_unpack 3 3 0 false) (outs_unpack_left 3 ++ [] ++ outs_unpack_right 3 0)
+    [VArr (map Some [VRes 7; VRes 8; VRes 9])] = Ok [VRes 7; VRes 8; VRes 9].
+Proof. vm_compute. auto. Qed.
+
+(** `for x in xs`: the GENERATED ArrayIter.__next__ (GenIter.v, from std/array.py), started by
+    the generated __iter__, delivers cells 0..n-1 in index order and then stops, discarding the
+    fully lent array (induction on n) *)
+Theorem iteration_sees_elements_in_order : forall n vs,
+  length vs = n -> Z.of_nat n < two63 -> for_loop_elements n (VArr (map Some vs)) = Ok vs.
+Proof. exact iteration_in_order_l. Qed.
+Print Assumptions iteration_sees_elements_in_order.
+
+Theorem iteration_over_lent_cell_panics : forall n cells k,
+  length cells = n -> Z.of_nat n < two63 -> (k < n)%nat -> nth_error cells k = Some None ->
+  array_iter_next n (VArr cells) (Z.of_nat k) = Panic msg_already_borrowed.
+Proof. exact iteration_lent_cell_panics_l. Qed.
+Print Assumptions iteration_over_lent_cell_panics.
+
+Example iteration_example :
+  for_loop_elements 3 (VArr (map Some [VRes 4; VRes 5; VRes 6])) = Ok [VRes 4; VRes 5; VRes 6].
+Proof. vm_compute. reflexivity. Qed.
+
+(** array(e for ...): the k-th delivered element lands in cell k (induction on n) *)
+Theorem comprehension_fills_cells_in_order : forall n es,
+  length es = n -> Z.of_nat n < two63 -> comprehension n es = Ok (VArr (map Some es)).
+Proof. exact comprehension_in_order_l. Qed.
+Print Assumptions comprehension_fills_cells_in_order.
+
+Theorem comprehension_over_array_keeps_order : forall n vs,
+  length vs = n -> Z.of_nat n < two63 ->
+  comprehension_over_array n (VArr (map Some vs)) = Ok (VArr (map Some vs)).
+Proof. exact comprehension_over_array_l. Qed.
+Print Assumptions comprehension_over_array_keeps_order.
+
+Example comprehension_example :
+  comprehension 3 [VInt 7; VInt 8; VInt 9] = Ok (VArr [Some (VInt 7); Some (VInt 8); Some (VInt 9)]).
+Proof. vm_compute. reflexivity. Qed.
+
+(** PARTIAL.  Not proved here: (1) that the HUGR ops behave as Array.v part 1 says (trusted
+    spec); (2) that the compiler emits the sequences of Array.v part 3 for ALL programs (tied by
+    comparison on compiled sample programs each run); (3) the loop protocol that calls __next__
+    until Nothing (modelled by [iterate] / [comp_drive]); (4) n >= 2^63. *)
